@@ -112,6 +112,9 @@ def gen_quic_conn(R, cid, cfg, used, **epkw):
     q["pn0"] = {k: 0 for k in ("ci", "si", "ch", "sh", "ca", "sa")}     # RFC 9000 12.3: packet numbers start at 0
     q["ncid"] = {"s": H.range(0, 3) if H.chance(cfg.get("ncid_pct", 40)) else 0,
                  "c": H.range(0, 2) if H.chance(cfg.get("ncid_pct", 40) // 2) else 0}
+    RX = R.fork("chretx")
+    if RX.chance(cfg.get("ch_retx_pct", 0)):
+        q["ch_retx"] = {"a": RX.range(0, 900), "n": RX.range(50, 600), "after": RX.range(1, 4)}
     if R.fork("vnegpre").chance(cfg.get("vneg_pct", 0)):
         q["vneg_prelude"] = True
     HL = R.fork("ncidlen")
@@ -167,6 +170,20 @@ def gen_quic_conn(R, cid, cfg, used, **epkw):
         # other side are still in flight and pass the tap afterwards
         d = A.choice("cs")
         script[-1][d][0]["pk"][0]["frames"].insert(0, ["close", 0x0100 + A.below(256)])
+    AL = R.fork("ncidlate")
+    if len(script) >= 3 and AL.chance(cfg.get("ncid_late_pct", 15)):
+        # a connection id issued in the middle of the connection, after both sides have sent 1-RTT packets; the peer
+        # switches to it in the next flight in which it sends
+        f = AL.range(1, len(script) - 2)
+        ds = [d for d in "cs" if script[f].get(d)]
+        if ds:
+            d = AL.choice(ds)
+            od = "s" if d == "c" else "c"
+            script[f]["ncid_issue"] = d
+            for g in range(f + 1, len(script)):
+                if script[g].get(od):
+                    script[g].setdefault("cid_switch", {})[od] = -1
+                    break
     q["script"] = script
     if A.chance(cfg.get("one_way_pct", 8)):
         # one-way tap / asymmetric routing: after the handshake the capture sees only one direction's datagrams
@@ -490,6 +507,13 @@ def build_units(conn):
                 sz += len(data)
             if cur:
                 fixed.append(cur)
+        rx = q.get("ch_retx")
+        if rx and len(ch) > 40:
+            # a retransmission of part of the ClientHello with other frame boundaries (overlapping the original frames),
+            # captured between the original packets
+            a = max(0, min(len(ch) - 2, len(ch) * rx["a"] // 1000))
+            b = max(a + 1, min(len(ch), a + min(1000, max(1, len(ch) * rx["n"] // 1000))))
+            fixed.insert(min(len(fixed), max(1, rx["after"])), [(a, ch[a:b])])
         z = q.get("zero_rtt")
         for gi, g in enumerate(fixed):
             frames = [["crypto", off, data] for off, data in g]
@@ -663,9 +687,18 @@ def build_units(conn):
                     side[d].dcid = pool[sw[d] % len(pool)]
         f = {"c": [], "s": []}
         first_of_phase = {}
+        late_ncid = None
+        di = fl.get("ncid_issue")
+        if di and fl.get(di) and len(side[di].scid) > 0 and not q.get("one_way"):
+            ln = (q.get("ncid_len") or {}).get(di, [len(side[di].scid)] * 8)[-1]
+            cidb = R.fork("ncid-late", di, len(side[di].issued)).bytes(ln)
+            side[di].issued.append(cidb)
+            late_ncid = ["ncid", cidb.hex(), side[di].ncid_seq]
+            side[di].ncid_seq += 1
         for d in "cs":
             for j, dg in enumerate(fl.get(d, [])):
-                pks = [packet(d, "1rtt", pk["frames"], pk["pnlen"], pk.get("skip", 0), extra=pk) for pk in dg["pk"]]
+                pks = [packet(d, "1rtt", ([late_ncid] if (late_ncid and d == di and j == 0 and k == 0) else []) + pk["frames"],
+                              pk["pnlen"], pk.get("skip", 0), extra=pk) for k, pk in enumerate(dg["pk"])]
                 plain = not any(m["n"] in ("NewConnectionIdFrame", "CryptoFrame") for p in pks for m in p[2]["frames"])
                 act = dg.get("act")
                 if act and (not plain or (initiated == d) or side[d].gen not in sent_in_gen[d]):
@@ -750,12 +783,12 @@ def reduction_candidates(conn):
                         c = copy.deepcopy(conn)
                         c["q"]["script"][i][d][j]["pk"][k]["skip"] = 0
                         yield "flight %d %s%d: no pn skip" % (i, d, j), c
-        for key in ("ku", "cid_switch"):
+        for key in ("ku", "cid_switch", "ncid_issue"):
             if key in fl:
                 c = copy.deepcopy(conn)
                 del c["q"]["script"][i][key]
                 yield "flight %d: no %s" % (i, key), c
-    for key, simple in (("retry", False), ("zero_rtt", None), ("early_s", False), ("hs_dup", None), ("one_way", None), ("migrate_at", None), ("ncid_len", None), ("vneg_prelude", None), ("s_coalesce", False),
+    for key, simple in (("retry", False), ("zero_rtt", None), ("early_s", False), ("hs_dup", None), ("one_way", None), ("migrate_at", None), ("ncid_len", None), ("vneg_prelude", None), ("ch_retx", None), ("s_coalesce", False),
                         ("c_coalesce", False), ("ch_cuts", []), ("pad_mode", "frames")):
         if q.get(key) not in (simple, None, False, []):
             c = copy.deepcopy(conn)
@@ -836,6 +869,12 @@ def check_keys(out, conn, t, pr):
             cmp("early-hp", keys.get("client_early_hp"), km["early"]["hp"])
     else:
         out.violate("keys-installed", "no-quic-tls-key-installation", tag)
+    for p in [p for p in pr if p[0] == "q_epoch"]:
+        # RFC 9001 5.4 / 6.1: the header protection keys are not updated by a key update
+        out.count("reach:quic_keys_after_key_update")
+        for a, b in (("client_application_hp", "chp"), ("server_application_hp", "shp")):
+            if p[4].get(a) is not None:
+                cmp("application-%s-after-key-update" % b, p[4].get(a), km["app_hp"][b])
     kus = [p for p in pr if p[0] == "q_ku"]
     for i, p in enumerate(kus):
         out.count("reach:quic_ku")
